@@ -803,6 +803,31 @@ def u16(ctx, rid):
         raise core.AnchorLost('storage point lookups: %d' % n)
 
 
+def u17(ctx, rid):
+    """an empty metadata map is a metadata map: `write(..)` stores records with an empty map and `read_with(key, &Meta::new())`
+    asks for exactly those.  Whether a lookup or the duplicate check is restricted by metadata depends on the request being
+    Some / None and on nothing else - no function of the lookup paths asks a Meta for its emptiness or size"""
+    prog = ctx.prog
+    n = 0
+    bad = None
+    for f in prog.fns.values():
+        if not (f.file in ('src/blob/core.rs', 'src/storage/core.rs', 'src/blob/entry.rs')):
+            continue
+        n += 1
+        for c in f.calls:
+            if c.bb not in f.reachable() or c.name not in ('is_empty', 'len') or not c.args or op_local(c.args[0]) is None:
+                continue
+            ty = f.locals[op_local(c.args[0])]['s']
+            if 'record::record::Meta' in ty or any('record::record::Meta' in t for t in prog.resolve(c)):
+                bad = c
+    if n < 50:
+        raise core.AnchorLost('functions of the lookup paths: %d' % n)
+    if bad:
+        ctx.bad(rid, 'meta-restriction-is-some-or-none', bad.where(), 'the lookup path asks the requested metadata map for `%s`: an empty map is then treated like `no metadata requested`, read_with / the duplicate check answer with another version of the key' % bad.name)
+    else:
+        ctx.ok(rid, 'meta-restriction-is-some-or-none', '', 'no emptiness / size question on a Meta in %d functions of the lookup paths' % n, nontrivial=False, queries=n)
+
+
 RULES = [
     Rule('C02.U1', 'the append in the write path is dominated by the duplicate policy branch; a found duplicate is acknowledged without storing', u1, 1),
     Rule('C02.U2', 'closed blobs are only ever marked with only_if_presented = true', u2, 2),
@@ -819,5 +844,6 @@ RULES = [
     Rule('C02.U14', 'every blob that contributes entries advances the counter that enables the cross-blob merge', u14, 2),
     Rule('C02.U15', 'read_all strips exactly the trailing deletion marker of the marker-terminated list', u15, 1),
     Rule('C02.U16', 'the storage point lookups answer only after the traversal of all blobs completed', u16, 2),
+    Rule('C02.U17', 'whether a lookup is restricted by metadata depends on Some / None only (an empty map is a map)', u17, 1),
     Rule('C02.U6', 'the point lookup consults every candidate closed blob before it returns Ok', u6, 1),
 ]
